@@ -54,19 +54,19 @@ CLAIMS.update({
 
 # additions of the later rounds (appended to the claim text) and refreshed caveats
 MORE = {
- "C01": " Function::compile (parameter prologue, layout); handlers ret / store / store_fast / load_fast / assert; scope predicates a change adds are carried along with their own body as contract.",
+ "C01": " Function::compile (parameter prologue, layout); handlers ret / store / store_fast / load_fast / assert; scope predicates a change adds are carried along with their own body as contract; the operator precedence table; a from loop re-using a counter name writes that variable; call_self.",
  "C02": " Also: is_numeric; the return-statement table; element / field assignment only of a fitting value; typing of `get` (also on a captured variable) and `or`; class methods return on every path; fixed-shape lists need equal length. Known finding D40 (return of `T?` from `-> T`) is reported as such.",
- "C03": " Also: return against the declared type; element / field assignment; a constant index that is no position is a diagnostic (Value::get_usize).",
+ "C03": " Also: return against the declared type; element / field assignment; a constant index that is no position is a diagnostic (Value::get_usize); an index whose type is not an index kind is rejected whether constant or not; an optional value is never accepted for a non-optional return type or place.",
  "C04": " The loader's record loop (MScriptFile::get_functions, body of the loop): per record form the writer emits, exactly its effect on the loader state; no well-formed record skipped, later definition wins, buffer emptied. run / execute have the same default stack size (constant equality).",
  "C06": " The run-time operator obligations of C05 are part of this check (the other side of the agreement).",
  "C07": " Dependencies of every statement kind incl. the place an element / field assignment writes through; list.map / filter bridges keep and pass on the callback's captured variables; a dot chain depends on its method calls' arguments; make_function resolves captured names lexically.",
  "C08": " ptr_mut: exactly one write of exactly the value through exactly the pointer, unconditionally; ret / store hand on values; the code generated for method calls in a dot chain (receiver saved, passed as self).",
  "C10": " Unpacking: every name looked up, const or not; element / field assignment: the path's const flag is the root variable's (also captured) and a const path is rejected; a `.field` step through a module is const; class names and `import m` aliases are constants at every registration. Known finding D45 (an imported member can be rebound locally) is reported as such.",
- "C11": " Compile-time export list: a variable (type_from_node) and a class (ModuleType::from_node declaration loop) enter it only when that declaration says export; the const-flag obligations that stop an importer's writes are part of this check.",
- "C12": " Typing of `get x` and `(x) or y` with the real is_optional / get_type_recursively / disregard_distractors; no compiler panic in the typing of `or`.",
+ "C11": " Compile-time export list: a variable (type_from_node) and a class (ModuleType::from_node declaration loop) enter it only when that declaration says export; the const-flag obligations that stop an importer's writes are part of this check; `m` and `./m` are one path; an existing `m.ms` is the module whatever else is named `m`.",
+ "C12": " Typing of `get x` and `(x) or y` with the real is_optional / get_type_recursively / disregard_distractors; no compiler panic in the typing of `or`; `get e` is always parsed to an unwrap; `a ?= e` writes the visible variable.",
  "C13": " A run-time index is the number it denotes or fails (try_into_numeric_index); element / entry assignment (ptr_mut).",
  "C14": " Float parts by VALUE (integer-valued, on the stated side of x, less than 1 away); index_of (first occurrence, byte position); the method dispatch table (name -> built-in) against the property's method names.",
- "C15": " Constant folding never drops an operand that is not itself a constant; the value of the left operand of && / || decides also through a pointer.",
+ "C15": " Constant folding never drops an operand that is not itself a constant; the value of the left operand of && / || decides also through a pointer; the expression parser builds `a OP b` with operands in source order and the operator as written; operator precedence table.",
  "C16": " Value::get_usize, try_coerce_to_open on an empty list, typing of `or` without assert_eq!.",
  "C17": " Function::run step: an error coming out of a called function (directly or under a list callback) is returned itself, not a re-worded one; try_into_numeric_index fails instead of wrapping; assert handler.",
  "C18": " The loader's record loop (shared with C04): every record kind incl. whitespace-valued opcodes.",
